@@ -27,9 +27,11 @@ func runC19(r *Result, thorough bool) {
 		"compared with the generated Lean thresholds and with an independent search-based specification; " +
 		"plus random add/remove sequences on real PeerSets vs the Lean list model; plus the decisions that use the thresholds: " +
 		"hashgraphs built against the fame election (split votes, coin rounds, counts of exactly the supermajority, a decider " +
-		"delivered late) on several real nodes, which must decide the same fame and deliver the same blocks. non-trivial: n>=1 (each n distinct)"
+		"delivered late) on several real nodes, which must decide the same fame and deliver the same blocks; and real cores with a join and a leave " +
+		"in which the joiner and the leaver sign every block: the anchor must hold valid signatures of more than a third of the validators of its own round. non-trivial: n>=1 (each n distinct)"
 	rng := rand.New(rand.NewSource(r.Seed))
 	defer c19Sites(r, thorough, rng)
+	defer c19Trust(r, thorough, rand.New(rand.NewSource(r.Seed+7)))
 	maxN := 100000
 	nReal := 300
 	if thorough {
@@ -184,5 +186,95 @@ func c19Sites(r *Result, thorough bool, rng *rand.Rand) {
 		r.Inc(fmt.Sprintf("adversarial_election_lasting_%d_rounds", reached), 1)
 		r.Compare(sc.cs[0])
 		sc.close()
+	}
+}
+
+// c19Trust: the "more than a third" site with a changing validator set. A joiner whose set is not yet
+// effective and a validator that has left sign every block a member holds (valid signatures, known
+// keys); after every ProcessSigPool the member's anchor block must carry valid signatures of more
+// than a third of the validators of ITS round — signatures of anybody else do not count.
+func c19Trust(r *Result, thorough bool, rng *rand.Rand) {
+	runs := 1
+	if thorough {
+		runs = 5
+	}
+	for ri := 0; ri < runs; ri++ {
+		n := 3 + rng.Intn(2)
+		cl := newCluster(rng, n, 10000, nil)
+		steps := 220 + rng.Intn(80)
+		var joiner *member
+		leaveDone := false
+		oracle := func(m *member) {
+			h := m.core.Hashgraph()
+			if h.AnchorBlock == nil {
+				return
+			}
+			b, err := h.Store.GetBlock(*h.AnchorBlock)
+			if err != nil {
+				return
+			}
+			set, err := h.Store.GetPeerSet(b.RoundReceived())
+			if err != nil {
+				return
+			}
+			valid := 0
+			for _, s := range b.GetSignatures() {
+				if _, ok := set.ByPubKey[s.ValidatorHex()]; !ok {
+					continue
+				}
+				if ok, err := b.Verify(s); err == nil && ok {
+					valid++
+				}
+			}
+			r.Inc("anchor_trust_checks", 1)
+			if !specMoreThanThird(set.Len(), valid) && !(set.Len() == 1 && valid >= 1) {
+				r.Violate("impl-violation", fmt.Sprintf("node %d: anchor block %d (round %d, %d validators) is trusted with %d valid signatures of its validators (%d entries in the signature map)",
+					m.idx, b.Index(), b.RoundReceived(), set.Len(), valid, len(b.Signatures)), "anchor-trusted-below-third", nil)
+			}
+		}
+		for s := 0; s < steps; s++ {
+			act := cl.activeMembers()
+			a, b := act[rng.Intn(len(act))], act[rng.Intn(len(act))]
+			if a == b {
+				continue
+			}
+			if rng.Intn(3) == 0 {
+				cl.submit(a, cl.newTx())
+			}
+			if joiner == nil && s >= steps/6 {
+				joiner = cl.startJoin(a)
+			}
+			if !leaveDone && s >= steps/3 && n >= 4 {
+				cl.startLeave(cl.members[n-1])
+				leaveDone = true
+			}
+			if (joiner != nil || leaveDone) && rng.Intn(5) == 0 {
+				hgb := b.core.Hashgraph()
+				who := []*member{}
+				if joiner != nil {
+					who = append(who, joiner)
+				}
+				if leaveDone {
+					who = append(who, cl.members[n-1])
+				}
+				for _, m := range who {
+					for idx := 0; idx <= hgb.Store.LastBlockIndex(); idx++ {
+						if blk, err := hgb.Store.GetBlock(idx); err == nil {
+							if bs, err := blk.Sign(m.key); err == nil {
+								hgb.PendingSignatures.Add(bs)
+								r.Inc("signatures_of_joiner_or_leaver_offered", 1)
+							}
+						}
+					}
+				}
+				guarded(func() error { return b.core.ProcessSigPool() })
+				oracle(b)
+			}
+			cl.pull(a, b, -1)
+			cl.activateJoiners()
+			oracle(a)
+		}
+		r.Inc("trust_site_runs_with_membership_change", 1)
+		cl.close()
 	}
 }
